@@ -1892,7 +1892,7 @@ class _PPTableImpl:
 
         # 3. multi column titles
         for title_line_data in repr_structure.gen_title_lines_ch_chunks_all(cp):
-            yield self._make_table_line(title_line_data, sep)
+            yield CHText.make(self._make_table_line(title_line_data, sep))
 
         # 4. one more border_line
         yield border_line
@@ -1902,9 +1902,9 @@ class _PPTableImpl:
             if isinstance(tl, self._ServiceLine):
                 yield tl.ch_text
             else:
-                yield self._make_table_line(
+                yield CHText.make(self._make_table_line(
                     self._ppt_fmt.repr_structure.make_record_ch_chunks_all(tl, cp),
-                    sep)
+                    sep))
 
         # 6. final border line
         yield border_line
